@@ -95,14 +95,18 @@ func runRace(bin, menu string, ng, rounds int) (out string, code int, err error)
 
 func init() {
 	register("C20", "model_checking", func(c *run.Ctx) error {
-		c.Rule = "TLC explores every Begin/End interleaving of 2 (thorough: also 3 and 4) goroutines, each running any program of the menu (forward chains, activation and loss evaluation and graph construction on a shared TRACKED parameter and a shared UNTRACKED tensor; private graphs over the shared untracked tensor that are back-propagated, reset and re-used; random constructors) and checks NoRace (no in-flight write meets another in-flight read or write), Deterministic (every goroutine's tensors end as in its sequential run) and SharedUntouched; with the proviso switched off and a program that back-propagates through the shared parameter TLC must find the race (non-vacuity). Binding: (i) every program is run alone and the set of pre-existing tensors each call changes (values bit-for-bit, flags, gradient) must lie inside the specification's write footprint; (ii) every assignment of programs to goroutines is executed with real goroutines in a binary built with Go's race detector, many rounds, and each goroutine's results must equal the sequential ones bit-for-bit; distinct = distinct (assignment, round)"
+		c.Rule = "TLC explores every Begin/End interleaving of 2 (thorough: also 3 and 4) goroutines, each running any program of the menu (8 programs; the first 6 with 4 goroutines: forward chains over every operation family, activation and loss evaluation and graph construction on a shared TRACKED parameter and a shared UNTRACKED tensor; private graphs over the shared untracked tensor that are back-propagated, reset and re-used; random constructors) and checks NoRace (no in-flight write meets another in-flight read or write), Deterministic (every goroutine's tensors end as in its sequential run) and SharedUntouched; with the proviso switched off and a program that back-propagates through the shared parameter TLC must find the race (non-vacuity). Binding: (i) every program is run alone and the set of pre-existing tensors each call changes (values bit-for-bit, flags, gradient) must lie inside the specification's write footprint; (ii) every assignment of programs to goroutines is executed with real goroutines in a binary built with Go's race detector, many rounds, and each goroutine's results must equal the sequential ones bit-for-bit; distinct = distinct (assignment, round)"
 		c.Assumptions = []string{"the effect of a call is applied atomically at End in the model; this is justified by NoRace itself", "read footprints are bound to the code only through the race detector (a runtime monitor inside the conformance step); write footprints by sequential differencing", "the random source is lock-protected (gonum / x/exp/rand locked source); values of random tensors are not compared"}
 		ngs := []int{2}
 		if c.Thorough {
 			ngs = []int{2, 3, 4} // 3600 / 216000 / 12.96 M distinct states under the canonical view (measured; 4 goroutines: about 8 min)
 		}
 		for _, ng := range ngs {
-			cfg := concCfg(c, fmt.Sprintf("conc%d.cfg", ng), ng, true, "MC_Menu")
+			menu := "MC_Menu8"
+			if ng >= 4 {
+				menu = "MC_Menu" // 8 programs and 4 goroutines would be ~80 M states
+			}
+			cfg := concCfg(c, fmt.Sprintf("conc%d.cfg", ng), ng, true, menu)
 			c.Logf("TLC model checking Conc with %d goroutines", ng)
 			res, err := c.MustTLC(run.TLCOpts{Module: "MC_Conc", Config: cfg, Workers: 16, HeapMB: 24000, Timeout: 40 * time.Minute, Tag: fmt.Sprintf("conc%d", ng)})
 			if err != nil {
